@@ -347,6 +347,19 @@ def r3_delta_and_order(ctx: Ctx) -> None:
         call = f.body[0].value if isinstance(f.body[0], ast.Expr) else None
         ok = len(tgt) == 2 and isinstance(call, ast.Call) and call_name(call) == "writer.write_block" and [unparse(a) for a in call.args] == [tgt[1], tgt[0]]
     ctx.check(bool(ok), "Program.emit:IncludeIpsNode-arm", "each (offset, data) of node.blocks is written as write_block(data, offset), in order, and nothing else")
+    # the node emits no bytes of its own (checked below): the arm must be reached for an empty emission too, and not skipped by an earlier `continue`
+    gpe = CFG(pe.node)
+    arm_conds = gpe.path_conditions(gpe.node_of(arm.test), pe.node, keep=["node_bytes"])
+    gated = sorted(t for t, pol in arm_conds if pol and ("node_bytes" in t) and "isinstance" not in t)
+    ctx.check(not gated, "Program.emit:IncludeIpsNode-arm:reached", f"the included records are forwarded although the node itself emits nothing; the arm is only reached when {gated}")
+    if unparse(arm.body[0].iter) == "node.blocks" if (arm.body and isinstance(arm.body[0], ast.For)) else False:
+        call_ = arm.body[0].body[0].value if arm.body[0].body and isinstance(arm.body[0].body[0], ast.Expr) else None
+        if isinstance(call_, ast.Call) and call_name(call_) == "writer.write_block" and isinstance(arm.body[0].target, ast.Tuple) and len(arm.body[0].target.elts) == 2:
+            from ..match import kwarg as _kw13
+
+            tg = [unparse(e) for e in arm.body[0].target.elts]
+            bound13 = [unparse(a) if a is not None else None for a in (_kw13(call_, "block", 0), _kw13(call_, "block_address", 1))]
+            ctx.check(bound13 == [tg[1], tg[0]], "Program.emit:IncludeIpsNode-arm:address", f"every record goes to its own (shifted) offset; write_block receives {bound13}")
     t = node_class_terms(ctx.repo)["IncludeIpsNode"]
     ctx.check(t[1] == ZERO and t[2] == ZERO, "IncludeIpsNode:layout-neutral", "emits no bytes into the program's block and does not advance the address")
     ctx.count("delta_facts", 5)
